@@ -193,13 +193,13 @@ func (dl *dialLog) judge(c *fw.Ctx, id, descr string, faultFree, quiescent bool)
 }
 
 type c20Case struct {
-	Seed     int64
-	Servers  int
-	Regions  int
-	Users    int
-	Later    int
-	Fault    string // "" | reset | abort-exc | dial-fail-once | read-error
-	Queue    int
+	Seed    int64
+	Servers int
+	Regions int
+	Users   int
+	Later   int
+	Fault   string // "" | reset | abort-exc | dial-fail-once | read-error
+	Queue   int
 }
 
 func (c c20Case) String() string {
